@@ -36,6 +36,13 @@ type point struct {
 const (
 	allocRatioMax = 2.5
 	cpuRatioMin   = 6.0
+	// quadratic work that allocates nothing (a linear scan per element): CPU time (rusage of the
+	// worker, not wall time) quadruples per doubling; judged only where it is large enough to measure
+	// (>= 2 s of CPU for well under a megabyte of input, which linear parsing never needs) and over
+	// three doublings, where quadratic (64x) and linear (8x) are far apart even when single doublings
+	// measure anywhere between 3x and 7x on a loaded machine; the smallest of 4 measurements counts
+	cpuRatioQuad8 = 24.0 // over three doublings: linear 8x, n log n about 10x, quadratic 64x
+	cpuQuadMin    = 2.0
 )
 
 // measure runs a series of sizes of one family under one variant in one fresh worker (one job
@@ -210,6 +217,26 @@ func runGrowth(thorough bool, res chan<- growthResult) {
 					}
 					if best > allocRatioMax {
 						report(growthKey(g, "superlinear-alloc"), fmt.Sprintf("family %s: %s grows %.2fx from n=%d to n=%d (%d -> %d bytes allocated, %d -> %d allocations) for an input that doubles (%d -> %d bytes); limit %.1fx", name, ctrNames[c], best, a.N, b.N, a.Alloc, b.Alloc, a.Mallocs, b.Mallocs, a.Bytes, b.Bytes, allocRatioMax), b.N)
+					}
+				}
+				// quadratic work that allocates nothing: compare with the size three doublings back
+				if k >= 3 && pts[k-3].Outcome == "ok" && b.CPU >= cpuQuadMin && violated == "" {
+					z := pts[k-3]
+					if r := ratio(z.CPU, b.CPU); r >= cpuRatioQuad8 {
+						best := r
+						for t := 0; t < 3; t++ {
+							p2, _, _ := measure(g, []int{z.N, b.N}, variant, budget)
+							if len(p2) == 2 && p2[0].Outcome == "ok" && p2[1].Outcome == "ok" && p2[1].CPU >= cpuQuadMin {
+								if r2 := ratio(p2[0].CPU, p2[1].CPU); r2 < best {
+									best = r2
+								}
+							} else {
+								best = 0
+							}
+						}
+						if best >= cpuRatioQuad8 {
+							report(growthKey(g, "superlinear-cpu"), fmt.Sprintf("family %s: CPU time grows %.0fx from n=%d to n=%d (%.3fs -> %.2fs) for an input 8x as long, smallest of 4 measurements; allocation stays linear", name, best, z.N, b.N, z.CPU, b.CPU), b.N)
+						}
 					}
 				}
 				if r := ratio(a.CPU, b.CPU); r >= cpuRatioMin && b.CPU >= 1.0 && violated == "" {
